@@ -91,5 +91,9 @@ def run_for_property(prop: str, rep: Report) -> None:
     for t in table:
         if t["result"] == "SURVIVED":
             print(f"  SELFTEST-SURVIVOR {t['mutant']} expected {t['expected_rule']}; got {t['new_violations']} {t['errors']}")
-    if survived and not base:
+    # a surviving mutant is an analysis error of this run - unless the tree under test already has violations that are not listed known
+    # findings (a seeded / broken tree: the self-test then only adds noise to a run that fails anyway)
+    known_keys = {k["key"] for k in load_known().get("findings", []) if k.get("property") == prop}
+    unlisted = {b for b in base if b[1] not in known_keys}
+    if survived and not unlisted:
         rep.error(f"selftest: {survived} mutant(s) survived - the rules are weaker than claimed")
